@@ -51,8 +51,22 @@ Accept ==
 
 TF == Is("F") /\ Accept /\ UNCHANGED rl
 
+(* E lines: charset sweep.  Reset{encname, iconv, ...} names the charset the rules were configured    *)
+(* with; E{in, exp, cps, vi, vfr, vfe, or, oe, vor, voe, sr, se, xr, xe}: exp / xr / xe = "the text  *)
+(* (input / remove output / escape output) converts strictly from that charset", decided by an        *)
+(* independent oracle (iconv(3)); cps = its code points.  Property: validation accepts only          *)
+(* well-formed text of the configured encoding and the filter's output is well-formed.               *)
+AcceptE ==
+    /\ Ev.vor /\ Ev.voe /\ Ev.sr /\ Ev.se
+    /\ ~Dangerous(OutR, R, {}) /\ ~Dangerous(OutE, R, {})
+    /\ Ev.vfr = Ev.vi /\ Ev.vfe = Ev.vi
+    /\ (Ev.vi => OutR = Ev.in /\ OutE = Ev.in)
+    /\ (Ev.vi => Ev.exp)
+    /\ Ev.xr /\ Ev.xe
+TE == Is("E") /\ AcceptE /\ UNCHANGED rl
+
 TraceInit == l = 1 /\ rl = 0
-TraceNext == TReset \/ TF
+TraceNext == TReset \/ TF \/ TE
 TraceSpec == TraceInit /\ [][TraceNext]_tvars
 
 (* ------------------- diagnosis of a rejected execution ------------------ *)
@@ -67,7 +81,14 @@ WF ==
                              B2I(Ev.vi => OutR = Ev.in /\ OutE = Ev.in),
                              B2I(Ev.vi => WellFormed(Ev.in, R.enc)),
                              B2I(WellFormed(OutR, R.enc) /\ WellFormed(OutE, R.enc))>>))
-WhyNext == TReset \/ WF
+WE ==
+    /\ Is("E") /\ UNCHANGED rl
+    /\ (AcceptE \/ PrintT(<<"WHYE", l, Scan(OutR, 1, R, {}), Scan(OutE, 1, R, {}),
+                              B2I(Ev.vor), B2I(Ev.voe), B2I(Ev.sr), B2I(Ev.se),
+                              B2I(Ev.vfr = Ev.vi /\ Ev.vfe = Ev.vi),
+                              B2I(Ev.vi => OutR = Ev.in /\ OutE = Ev.in),
+                              B2I(Ev.vi => Ev.exp), B2I(Ev.xr /\ Ev.xe)>>))
+WhyNext == TReset \/ WF \/ WE
 WhySpec == TraceInit /\ [][WhyNext]_tvars
 
 (* ------------------------------- drift --------------------------------- *)
@@ -85,6 +106,15 @@ DF ==
             IN /\ (mv = Ev.vi \/ Report("validate"))
                /\ (mr = OutR \/ Report("remove"))
                /\ (me = OutE \/ Report("escape"))
-DriftNext == TReset \/ DF
+\* charset sweep: the implementation is expected to accept exactly the text that the oracle converts,
+\* whose characters are allowed in HTML (no C0 controls but TAB LF CR, no DEL, no C1) and whose markup is valid
+HtmlSafe(cp) == cp \in {9, 10, 13} \/ (cp >= 32 /\ cp # 127 /\ ~(cp >= 128 /\ cp <= 159))
+DE ==
+    /\ Is("E") /\ UNCHANGED rl
+    /\ LET mv == /\ Ev.exp
+                  /\ \A k \in DOMAIN Ev.cps : HtmlSafe(Ev.cps[k])
+                  /\ MValidate(Ev.in, [R EXCEPT !.enc = "none"], {})
+       IN mv = Ev.vi \/ Report("charset-validate")
+DriftNext == TReset \/ DF \/ DE
 DriftSpec == TraceInit /\ [][DriftNext]_tvars
 =============================================================================
